@@ -32,13 +32,13 @@ def gen_scenarios(rng):
     """list of scenarios linked together"""
     mode = rng.choice(['same', 'same', 'multi'])
     if mode == 'same':
-        sc = scenario.gen_scenario(rng, want={'flavor': rng.choice(['r', 'r', 'c99'])})
+        sc = scenario.gen_scenario(rng, want={'flavor': rng.choice(['r', 'r', 'c99', 'cxx'])})
         sc.name = 's0'
         return [sc]
     scs = []
     n = rng.randint(2, 3)
     for i in range(n):
-        fl = 'nr' if rng.random() < (0.7 if i == 0 else 0.35) else rng.choice(['r', 'r', 'c99'])
+        fl = 'nr' if rng.random() < (0.7 if i == 0 else 0.35) else rng.choice(['r', 'r', 'c99', 'cxx'])
         sc = scenario.gen_scenario(rng, want={'flavor': fl})
         sc.name = 's%d' % i
         sc.prefix = 'px%d_' % i
@@ -208,6 +208,8 @@ def work(ctx, idx):
             wr.notes.append('scn %d unbuildable (%s): %s' % (idx, b.stage, b.msg.strip()[:200]))
         return wr
     wr.scenarios = 1
+    for s_ in scs:
+        wr.stats['back-end:' + s_.flavor] += 1
     plans = []
     for j in range(cfg['plans']):
         p = gen_plan(ctx.rng('scn', idx, 'plan', j), scs)
